@@ -747,7 +747,10 @@ http_prepare(nng_http *conn, void **data, size_t *szp)
 
 	// If it fits in the fixed buffer, use it. It should cover
 	// like 99% or more cases, as this buffer is 8KB.
-	if (len < conn->bufsz) {
+	// (But only if it holds no received data that is still unread, e.g.
+	// a pipelined request or the start of a body: the same buffer is
+	// the receive buffer.)
+	if ((len < conn->bufsz) && (conn->rd_get == conn->rd_put)) {
 		http_snprintf(conn, (char *) conn->buf, conn->bufsz);
 		*data = conn->buf;
 		*szp  = len;
